@@ -1,5 +1,5 @@
 //! C17 — folding ranges match procedure extents.  E-INPUT.
-use crate::checks::c04::{comment_text, variants};
+use crate::checks::c04::{variants, Variant};
 use crate::common::*;
 use crate::gen::ast::*;
 use crate::gen::layout::*;
@@ -10,6 +10,17 @@ use crate::soup::*;
 use rayon::prelude::*;
 use serde_json::{json, Value};
 use std::sync::atomic::{AtomicU64, Ordering};
+
+/// comment texts with characters that are NOT line terminators in LSP (only LF, CR LF and CR
+/// are) although Unicode calls them line / paragraph separators, and with a character outside
+/// the BMP
+pub fn comment_text(g: usize) -> String {
+    match g % 3 {
+        0 => format!(" c{}", g),
+        1 => format!(" c{}\u{2028}x\u{85}y\u{2029}z", g),
+        _ => format!(" \u{1f600}{}\u{b}\u{c}", g),
+    }
+}
 
 fn fold_request(text: &str) -> Result<Vec<(u64, u64)>, String> {
     let mut s = Session::new(false);
@@ -135,9 +146,15 @@ pub fn run(tier: Tier) -> Report {
             if let Err((kind, detail)) = eval_multi_step(&it.program, &pr) {
                 out.push(Failure { key: format!("fold:{}", kind), case: json!({"text": render_plain(&pr.toks, Layout::Lines).text, "family": it.family, "multi_step": true}), detail });
             }
-            for v in variants(&pr, it.focus_decl, i % 97 == 0) {
+            let mut vs: Vec<(Variant, bool)> = variants(&pr, it.focus_decl, i % 97 == 0).into_iter().map(|v| (v, false)).collect();
+            // documents that end with the last byte of the program, in every line-end convention
+            for l in [Layout::Cr, Layout::Crlf, Layout::Lines] {
+                vs.push((Variant { layout: l, gaps: vec![] }, true));
+            }
+            for (v, is_tight) in vs {
                 // single-gap comment variants only where they can matter for lines: all of them
                 let r = render(&pr.toks, if v.gaps.len() == 1 { Layout::Lines } else { v.layout }, &v.gaps, &comment_text);
+                let r = if is_tight { tight(r) } else { r };
                 evals.fetch_add(1, Ordering::Relaxed);
                 if let Err((kind, detail)) = eval_program(&it.program, &pr, &r) {
                     if out.len() < 2 {
